@@ -8,8 +8,10 @@ pub mod c03;
 pub mod c04;
 pub mod c05;
 pub mod c06;
+pub mod c07;
 pub mod c08;
 pub mod c09;
+pub mod c10;
 pub mod c11;
 pub mod c12;
 pub mod c13;
@@ -34,8 +36,10 @@ pub fn run(prop: &str, rep: &Report) {
         "C04" => c04::run(rep),
         "C05" => c05::run(rep),
         "C06" => c06::run(rep),
+        "C07" => c07::run(rep),
         "C08" => c08::run(rep),
         "C09" => c09::run(rep),
+        "C10" => c10::run(rep),
         "C11" => c11::run(rep),
         "C12" => c12::run(rep),
         "C13" => c13::run(rep),
@@ -56,6 +60,8 @@ pub fn replay(case: &Value) -> Vec<Violation> {
         "narrow" => c15::replay(case),
         "c09" => c09::replay(case),
         "c03" => c03::replay(case),
+        "c10" | "c10_holder" | "c10_issue" => c10::replay(case),
+        "c07" | "c07_block" => c07::replay(case),
         "c14_schedule" | "c14_history" | "c14_global" => c14::replay(case),
         "c11_issuer" | "c11_holder" => c11::replay(case),
         "c04" | "c04_text" => c04::replay(case),
@@ -72,6 +78,7 @@ pub fn worker(args: &[String]) {
     match args.first().map(|s| s.as_str()) {
         Some("C16") => c16::worker(&args[1..]),
         Some("C14") => c14::worker(&args[1..]),
+        Some("C07") => c07::worker(&args[1..]),
         _ => {
             eprintln!("unknown worker kind");
             std::process::exit(2);
